@@ -1,6 +1,7 @@
 package verifh
 
 import (
+	"encoding/hex"
 	"os"
 	"path/filepath"
 	"strings"
@@ -60,7 +61,7 @@ func kthPerm(n, k int) []int {
 }
 
 type viewImage struct {
-	v    *pfs.VirtualISO
+	v    afero.File
 	size int64
 }
 
@@ -73,7 +74,7 @@ func (vi viewImage) At(off int64, n int) []byte {
 
 // runISOCase builds the image of root/rel. permIdx selects the enumeration order applied to every directory
 // listing (sorted order permuted by the permIdx-th permutation).
-func runISOCase(root, rel string, ps3 bool, permIdx int, titleID string, huge bool, readCap int) (res *isoCaseResult) {
+func runISOCase(root, rel string, ps3 bool, permIdx int, titleID string, huge bool, readCap int, viaFS bool) (res *isoCaseResult) {
 	res = &isoCaseResult{}
 	leaf := newVFs(afero.NewOsFs(), "leaf")
 	leaf.record = false
@@ -88,14 +89,28 @@ func runISOCase(root, rel string, ps3 bool, permIdx int, titleID string, huge bo
 			return nil
 		}
 	}
-	var v *pfs.VirtualISO
+	var v afero.File
 	func() {
 		defer func() {
 			if p := recover(); p != nil {
 				res.err = errPanic{p}
 			}
 		}()
-		v, res.err = pfs.NewVirtualISO(afero.NewBasePathFs(leaf, root), rel, ps3)
+		if viaFS {
+			// the way the server opens it: through the serving filesystem (which decrypts disc images it recognises -
+			// but never the members of a generated image) under the virtual prefix
+			pre := "/***DVD***"
+			if ps3 {
+				pre = "/***PS3***"
+			}
+			v, res.err = (&pfs.FS{Fs: afero.NewBasePathFs(leaf, root)}).OpenFile(pre+rel, os.O_RDONLY, 0)
+			return
+		}
+		var vi *pfs.VirtualISO
+		vi, res.err = pfs.NewVirtualISO(afero.NewBasePathFs(leaf, root), rel, ps3)
+		if res.err == nil {
+			v = vi
+		}
 	}()
 	if res.err != nil {
 		return res
@@ -142,7 +157,8 @@ type isoCase struct {
 	titleID string
 	huge    bool
 	family  string
-	readCap int // > 0: every underlying Read returns at most this many bytes
+	readCap int  // > 0: every underlying Read returns at most this many bytes
+	viaFS   bool // open through the serving filesystem under the virtual prefix instead of calling the generator
 }
 
 // isoTreeCases enumerates the tree space shared by C07/C08/C18.
@@ -275,6 +291,18 @@ func isoFamilyCases(thorough bool, structural bool, visit func(c isoCase)) {
 			mkFileAbs(filepath.Join(dir, "d0000", "s0000", "x.bin"), 3000, 1, baseTime)
 		}})
 	}
+	// many non-empty files spread over a few directories (more than any plausible cap on cached handles or entries)
+	for _, nf := range []int{129, 300, 1100} {
+		nf := nf
+		if nf > 300 && !thorough {
+			continue
+		}
+		visit(isoCase{desc: sprintf("files=%d", nf), family: "manyfiles", build: func(dir string) {
+			for i := 0; i < nf; i++ {
+				mkFileAbs(filepath.Join(dir, sprintf("g%d", i%3), sprintf("f%04d.bin", i)), int64(1+i%5*700), byte(i), baseTime)
+			}
+		}})
+	}
 	// sizes around the transfer buffer
 	for _, sz := range []int64{65535, 65536, 65537, 131073, 1<<20 + 1} {
 		sz := sz
@@ -309,6 +337,33 @@ func isoFamilyCases(thorough bool, structural bool, visit func(c isoCase)) {
 			mkFileAbs(filepath.Join(dir, "d", "g_big.bin"), 2*0xFFFFF800+5, 7, baseTime)
 			mkFileAbs(filepath.Join(dir, "d", "zz_after.bin"), 2049, 3, baseTime)
 		}})
+	}
+	// source trees that contain disc images, key files and CD images: members of a generated image are stored byte
+	// for byte (never decrypted or masked), whether the generator is called directly or through the serving filesystem
+	for _, via := range []bool{false, true} {
+		for _, ps3 := range []bool{false, true} {
+			via, ps3 := via, ps3
+			visit(isoCase{desc: sprintf("tree with disc images, via serving fs=%v ps3=%v", via, ps3), family: "discimages", viaFS: via, ps3: ps3, titleID: "BLES01234", build: func(dir string) {
+				pairs := []uint32{0, 2, 4, 5}
+				plain := patBytes(61, 0, 6*2048)
+				copy(plain, regionTable(pairs))
+				copy(plain[0xF70:], wmEnc)
+				copy(plain[0xF80:], c10Keys[1])
+				writeFileAbs(filepath.Join(dir, "backup", "enc3k3y.iso"), buildEncImage(plain, pairs, c10Keys[1]), baseTime)
+				dec := patBytes(62, 0, 3*2048)
+				copy(dec[0xF70:], wmDec)
+				writeFileAbs(filepath.Join(dir, "backup", "dec3k3y.bin"), dec, baseTime)
+				disk, _ := mkRedumpImage(6, pairs, c10Keys[2], 63)
+				writeFileAbs(filepath.Join(dir, "PS3ISO", "game.iso"), disk, baseTime)
+				writeFileAbs(filepath.Join(dir, "PS3ISO", "game.dkey"), []byte(hex.EncodeToString(c10Keys[2])), baseTime)
+				writeFileAbs(filepath.Join(dir, "REDKEY", "other.dkey"), []byte(hex.EncodeToString(c10Keys[3])), baseTime)
+				disk2, _ := mkRedumpImage(6, pairs, c10Keys[3], 64)
+				writeFileAbs(filepath.Join(dir, "PS3ISO", "other.iso"), disk2, baseTime)
+				if ps3 {
+					writeFileAbs(filepath.Join(dir, "PS3_GAME", "PARAM.SFO"), mkSFO([]sfoKV{{"TITLE_ID", "BLES01234"}}), baseTime)
+				}
+			}})
+		}
 	}
 	// symbolic links the operator placed in the tree are followed, as everywhere in the server: a link to a file
 	// is a file with the target's size and bytes, a link to a directory is a directory with the target's content
@@ -427,7 +482,7 @@ func runISOProperty(t *testing.T, prop string) {
 	if structural {
 		r.Rule("every tree with <= N nodes (dirs / files of size 0,1,2047,2048,2049) x every enumeration order of directory listings x {plain, PS3}; families: 1..300 entries per directory, chain depth 0..8, up to 1100 directories, name length 1..255, non-ASCII and colliding names, root-name length, symbolic links, sparse files around 4 GiB..9 GiB, PARAM.SFO key orders/entry counts, every Read capped at 1..2047 bytes; oracle = strict ECMA-119/Joliet/PS3 validator written from the standard; distinct by case description")
 	} else {
-		r.Rule("every tree with <= N nodes (dirs / files of size 0,1,2047,2048,2049) x every enumeration order of directory listings x {plain, PS3}; families: 1..300 entries per directory, chain depth 0..8, up to 1100 directories, sizes around 64 KiB, sparse files around 4 GiB..9 GiB, symbolic links to files and directories (relative, absolute, chained); oracle = independent ISO 9660/Joliet reader: both hierarchies hold exactly the source entries with exact sizes and bytes; distinct by case description")
+		r.Rule("every tree with <= N nodes (dirs / files of size 0,1,2047,2048,2049) x every enumeration order of directory listings x {plain, PS3}; families: 1..300 entries per directory, chain depth 0..8, up to 1100 directories, sizes around 64 KiB, sparse files around 4 GiB..9 GiB, symbolic links to files and directories (relative, absolute, chained), trees holding disc images and key files (generator called directly and through the serving filesystem); oracle = independent ISO 9660/Joliet reader: both hierarchies hold exactly the source entries with exact sizes and bytes; distinct by case description")
 	}
 	base := filepath.Join(scratchBase(), sprintf("verifh-%s-%d", strings.ToLower(prop), os.Getpid()))
 	root := filepath.Join(base, "root")
@@ -458,7 +513,7 @@ func runISOProperty(t *testing.T, prop string) {
 		dir := filepath.Join(root, rel)
 		must(os.MkdirAll(dir, 0o755))
 		c.build(dir)
-		res := runISOCase(root, rel, c.ps3, c.perm, c.titleID, c.huge, c.readCap)
+		res := runISOCase(root, rel, c.ps3, c.perm, c.titleID, c.huge, c.readCap, c.viaFS)
 		r.Transition(1)
 		r.State(c.desc)
 		rep := map[string]any{"case": c.desc, "ps3": c.ps3, "enumeration_perm": c.perm}
